@@ -291,6 +291,14 @@ func (r *Run) Inflight(kind string, c any) {
 	r.wdMu.Unlock()
 }
 
+// Tick restarts the watchdog timer: a sweep of many sub-cases under one
+// in-flight marker calls it before each sub-case.
+func (r *Run) Tick() {
+	r.wdMu.Lock()
+	r.wdSince = time.Now()
+	r.wdMu.Unlock()
+}
+
 // InflightDone removes the in-flight marker and disarms the watchdog.
 func (r *Run) InflightDone() {
 	r.wdMu.Lock()
